@@ -5,6 +5,7 @@ package sctp
 import (
 	"context"
 	"fmt"
+	"runtime"
 	"strings"
 	"sync"
 	"testing"
@@ -606,10 +607,117 @@ func runC20Press(t *testing.T, x c20Press, verbose bool) vfCase {
 	return c
 }
 
+// ---- timer callbacks are delivered without the timer's own lock ----
+//
+// The association calls start / stop / isRunning of its retransmission and acknowledgement
+// timers while holding the association lock, and the timers' callbacks take the association
+// lock. That is deadlock-free only if a timer never invokes its observer with its own mutex
+// held. Generated timer scripts (those of C19) run with observers that try the mutex.
+
+type c20TimerObs struct {
+	mu     sync.Mutex
+	rtx    *rtxTimer
+	ack    *ackTimer
+	held   []string
+	n      int
+	action int // what the callback does besides looking: 0 nothing, 1 isRunning(), 2 stop()
+}
+
+func (o *c20TimerObs) probe(what string, isAck bool) {
+	o.mu.Lock()
+	o.n++
+	o.mu.Unlock()
+	// only the mutex of the timer that is calling back is probed; another goroutine may hold
+	// it for a moment (then a retry succeeds), the calling goroutine itself would hold it for ever
+	try := func(tryLock func() bool, unlock func()) bool {
+		for i := 0; i < 50; i++ {
+			if tryLock() {
+				unlock()
+				return true
+			}
+			runtime.Gosched()
+		}
+		return false
+	}
+	if !isAck && o.rtx != nil {
+		if try(o.rtx.mutex.TryLock, o.rtx.mutex.Unlock) {
+			switch o.action {
+			case 1:
+				_ = o.rtx.isRunning()
+			case 2:
+				o.rtx.stop()
+			}
+		} else {
+			o.mu.Lock()
+			o.held = append(o.held, what)
+			o.mu.Unlock()
+		}
+	}
+	if isAck && o.ack != nil {
+		if try(o.ack.mutex.TryLock, o.ack.mutex.Unlock) {
+			if o.action != 0 {
+				_ = o.ack.isRunning()
+			}
+		} else {
+			o.mu.Lock()
+			o.held = append(o.held, what)
+			o.mu.Unlock()
+		}
+	}
+}
+func (o *c20TimerObs) onRetransmissionTimeout(id int, n uint) {
+	o.probe(fmt.Sprintf("onRetransmissionTimeout(n=%d)", n), false)
+}
+func (o *c20TimerObs) onRetransmissionFailure(id int) { o.probe("onRetransmissionFailure", false) }
+func (o *c20TimerObs) onAckTimeout()                  { o.probe("onAckTimeout", true) }
+
+func runC20Timers(t *testing.T, sc c19Timer) (c vfCase) {
+	obs := &c20TimerObs{action: len(sc.Ops) % 3}
+	pm := vfBubble(t, func() {
+		rtx := newRTXTimer(3, obs, uint(sc.MaxRetrans), float64(sc.RTOMax))
+		ack := newAckTimer(obs)
+		obs.mu.Lock()
+		obs.rtx, obs.ack = rtx, ack
+		obs.mu.Unlock()
+		for i, op := range sc.Ops {
+			switch op.K {
+			case 0:
+				time.Sleep(time.Duration(op.WaitMs)*time.Millisecond + time.Duration(i)*time.Microsecond)
+			case 1:
+				rtx.start(float64(op.RTO))
+				ack.start()
+			case 2, 4:
+				rtx.stop()
+				ack.stop()
+			case 3:
+				rtx.close()
+				ack.close()
+			}
+		}
+		time.Sleep(time.Millisecond)
+		rtx.close()
+		ack.close()
+	})
+	if pm != "" {
+		c.fail("bubble-panic", "bubble: %s", pm)
+	}
+	obs.mu.Lock()
+	defer obs.mu.Unlock()
+	if len(obs.held) > 0 {
+		c.fail("timer-callback-under-timer-lock", "a timer invoked %s with its own mutex held (%d of %d callbacks): association code that holds the association lock and touches the timer deadlocks against it", obs.held[0], len(obs.held), obs.n)
+	}
+	c.Nontrivial = obs.n >= 2
+	if obs.n > 0 {
+		c.class("callbacks-observed")
+	}
+	return c
+}
+
 func TestVF_C20(t *testing.T) {
 	vfExplore(t, "C20", "concurrent-api", vfN(480, 12000), genC20, func(x c20Scn) vfCase { return runC20(t, x, vfEnv.Replay != "") })
 	// a deadlocked case never returns; each case finishes in well under a second of real time
 	vfWatchdogLimit.Store(int64(60 * time.Second))
 	vfExplore(t, "C20", "lock-pressure", vfN(60, 2000), genC20Press, func(x c20Press) vfCase { return runC20Press(t, x, vfEnv.Replay != "") })
 	vfWatchdogLimit.Store(0)
+	vfExplore(t, "C20", "timer-callbacks", vfN(1600, 40000), genC19Timer, func(sc c19Timer) vfCase { return runC20Timers(t, sc) })
 }
